@@ -59,7 +59,7 @@ struct Model {
         }
         case NEXTC: return true;
         case DROP: return true;
-        case SETFS: return true;
+        case SETFS: return tellp + o.a >= 0;
         case SETC: return true;
         }
         return false;
@@ -210,6 +210,12 @@ static void build_alpha(const std::string & a, int c) {
         add(SEEK, {1, -1, 2, -2, 3, -3});
         add(DROP, {0});
         add(SETFS, {0});
+    } else if (a == "S4") {          /* the declared end moved into (and behind) the data already written, then grown again */
+        add(WRITE, {1, 3});
+        add(READ, {1, 2, 5});
+        add(SEEK, {1, -1});
+        add(DROP, {0});
+        add(SETFS, {0, -1, -2, -4, 2});
     } else if (a == "S3") {          /* writer side */
         add(WRITE, {1, 2, 3, 5});
         add(NEXTC, {0});
